@@ -69,8 +69,16 @@ def jobs(tier, seed):
     for i in range(0, len(small), chunk):
         out.append({"id": f"trees/{i // chunk:03d}", "fam": "trees", "trees": small[i: i + chunk]})
     # larger trees: two renderings and three contexts (all renderings / contexts are covered on the small trees)
+    def muls(t):
+        return 0 if t[0] in ("leaf", "lit") else (t[1] == "*") + sum(muls(c) for c in t[2:])
+
+    heavy = [t for t in big if muls(t) >= 2]
+    big = [t for t in big if muls(t) < 2]
     for i in range(0, len(big), chunk * 2):
         out.append({"id": f"trees3/{i // (chunk * 2):03d}", "fam": "trees", "trees": big[i: i + chunk * 2], "styles": ["min", "sp"], "contexts": ["str", "dl", "if"]})
+    # products of three symbolic values: value context only (branching on them defeats the solver)
+    for i in range(0, len(heavy), chunk * 2):
+        out.append({"id": f"trees3m/{i // (chunk * 2):03d}", "fam": "trees", "trees": heavy[i: i + chunk * 2], "styles": ["min"], "contexts": ["str"]})
     maxd = {"dec": 5, "hex": 4, "bin": 6} if tier == "quick" else {"dec": 6, "hex": 5, "bin": 8}
     for base, mx in maxd.items():
         for n in range(1, mx + 1):
